@@ -64,7 +64,7 @@ type HandshakeManager struct {
 	lightHouse             *LightHouse
 	outside                udp.Conn
 	config                 HandshakeConfig
-	OutboundHandshakeTimer *LockingTimerWheel[netip.Addr]
+	OutboundHandshakeTimer *LockingTimerWheel[handshakeTimerEntry]
 	messageMetrics         *MessageMetrics
 	metricInitiated        metrics.Counter
 	metricTimedOut         metrics.Counter
@@ -73,6 +73,15 @@ type HandshakeManager struct {
 
 	// can be used to trigger outbound handshake for the given vpnIp
 	trigger chan netip.Addr
+}
+
+// handshakeTimerEntry is what the retry timer wheel holds: the address to retry and the pending handshake that
+// scheduled the retry. The wheel has no way to cancel an entry, so an entry can outlive its handshake (completed,
+// timed out by a lighthouse trigger, restarted after a wrong responder). Such a leftover must not drive a newer
+// handshake with the same address, it would add a second retry chain to it.
+type handshakeTimerEntry struct {
+	vpnAddr netip.Addr
+	hh      *HandshakeHostInfo
 }
 
 type HandshakeHostInfo struct {
@@ -124,7 +133,7 @@ func NewHandshakeManager(l *slog.Logger, mainHostMap *HostMap, lightHouse *Light
 		outside:                outside,
 		config:                 config,
 		trigger:                make(chan netip.Addr, config.triggerBuffer),
-		OutboundHandshakeTimer: NewLockingTimerWheel[netip.Addr](config.tryInterval, hsTimeout(config.retries, config.tryInterval)),
+		OutboundHandshakeTimer: NewLockingTimerWheel[handshakeTimerEntry](config.tryInterval, hsTimeout(config.retries, config.tryInterval)),
 		messageMetrics:         config.messageMetrics,
 		metricInitiated:        metrics.GetOrRegisterCounter("handshake_manager.initiated", nil),
 		metricTimedOut:         metrics.GetOrRegisterCounter("handshake_manager.timed_out", nil),
@@ -196,11 +205,15 @@ func (hm *HandshakeManager) HandleIncoming(via ViaSender, packet []byte, h *head
 func (hm *HandshakeManager) NextOutboundHandshakeTimerTick(now time.Time) {
 	hm.OutboundHandshakeTimer.Advance(now)
 	for {
-		vpnIp, has := hm.OutboundHandshakeTimer.Purge()
+		entry, has := hm.OutboundHandshakeTimer.Purge()
 		if !has {
 			break
 		}
-		hm.handleOutbound(vpnIp, false)
+		if hm.queryVpnIp(entry.vpnAddr) != entry.hh {
+			// Scheduled by a handshake that is no longer pending
+			continue
+		}
+		hm.handleOutbound(entry.vpnAddr, false)
 	}
 }
 
@@ -241,7 +254,7 @@ func (hm *HandshakeManager) handleOutbound(vpnIp netip.Addr, lighthouseTriggered
 	// Check if we have a handshake packet to transmit yet
 	if !hh.ready {
 		if !hm.buildStage0Packet(hh) {
-			hm.OutboundHandshakeTimer.Add(vpnIp, hm.config.tryInterval*time.Duration(hh.counter))
+			hm.OutboundHandshakeTimer.Add(handshakeTimerEntry{vpnIp, hh}, hm.config.tryInterval*time.Duration(hh.counter))
 			return
 		}
 	}
@@ -333,7 +346,7 @@ func (hm *HandshakeManager) handleOutbound(vpnIp netip.Addr, lighthouseTriggered
 
 	// If a lighthouse triggered this attempt then we are still in the timer wheel and do not need to re-add
 	if !lighthouseTriggered {
-		hm.OutboundHandshakeTimer.Add(vpnIp, hm.config.tryInterval*time.Duration(hh.counter))
+		hm.OutboundHandshakeTimer.Add(handshakeTimerEntry{vpnIp, hh}, hm.config.tryInterval*time.Duration(hh.counter))
 	}
 }
 
@@ -384,7 +397,7 @@ func (hm *HandshakeManager) StartHandshake(vpnAddr netip.Addr, cacheCb func(*Han
 	}
 	hm.vpnIps[vpnAddr] = hh
 	hm.metricInitiated.Inc(1)
-	hm.OutboundHandshakeTimer.Add(vpnAddr, hm.config.tryInterval)
+	hm.OutboundHandshakeTimer.Add(handshakeTimerEntry{vpnAddr, hh}, hm.config.tryInterval)
 
 	if cacheCb != nil {
 		cacheCb(hh)
